@@ -24,13 +24,13 @@ func init() { subs["c08"] = c08 }
 
 const c08Scratch = "/scratch"
 
-// c08Fail reports at most 3 failures per signature to the evidence (the harness keeps 200 in total);
-// every further one is only counted.
+// c08Fail reports the first failure of every signature to the evidence (the check keeps 20 in the
+// replay file); every further one is only counted.
 var c08FailSeen = map[string]int{}
 
 func c08Fail(c *Ctx, sig string, detail string, replay interface{}) {
 	c08FailSeen[sig]++
-	if c08FailSeen[sig] > 3 {
+	if c08FailSeen[sig] > 1 {
 		c.Count("suppressed-repeat:" + sig)
 		return
 	}
@@ -289,6 +289,10 @@ func c08(c *Ctx) {
 						sig = "c08/torn-record-scan-error/zero-tail"
 					}
 					c08Fail(c, sig, fmt.Sprintf("tmp.data = %d good records + first %d of %d bytes of the record in flight (+%d zero bytes): scanFile returns %s, FileQueue.Start panics", len(good), cut, len(rawLast), zt, st), replay)
+				} else if c08SameRecs(recs, append(append([]c08Rec{}, good...), last)) {
+					// the record in flight is delivered exactly as written (cut behind the body, or the cut-off
+					// tail consisted of zero bytes anyway): allowed by the full statement
+					c.Count("torn-delivered-intact")
 				} else if !c08SameRecs(recs, want) {
 					if len(recs) == len(good)+1 && c08SameRecs(recs[:len(good)], good) {
 						sig := "c08/torn-record-redelivered"
